@@ -172,7 +172,7 @@ def verify_unit(unit, repo, opts):
     """Returns a JSON-able result dict."""
     t0 = time.time()
     res = {'unit': unit.name, 'target': unit.kcls.target, 'prop': unit.prop, 'vcs': [], 'paths': 0, 'incomplete': None,
-           'error': None, 'out_of_subset': None, 'inlined': [], 'covers': {}, 'src_sha256': None, 'solver_s': 0.0}
+           'error': None, 'out_of_subset': None, 'inlined': [], 'covers': {}, 'src_sha256': None, 'solver_s': 0.0, 'samples': []}
     try:
         loader = Loader(repo)
         K = unit.make()
@@ -218,7 +218,10 @@ def verify_unit(unit, repo, opts):
                 pc = list(ctx.pc)
                 if out.kind == 'return':
                     covers['return'] = True
-                    for name, cl in (K.post(c, a, out) or {}).items():
+                    posts = dict(K.post(c, a, out) or {})
+                    if unit.params.get('_canary'):
+                        posts['canary'] = False
+                    for name, cl in posts.items():
                         vcs.append(('%s/post:%s' % (pfx, name), pc, cl, {'kind': 'post'}))
                     for ename, cond in (K.raises(c, a) or {}).items():
                         if cond is None:
@@ -240,6 +243,10 @@ def verify_unit(unit, repo, opts):
                             vcs.append(('%s/raises-only:%s' % (pfx, matched), pc, cond, {'kind': 'raises-only', 'exc': out.exc, 'site': out.exc_site}))
                         for name, cl in (K.post_raise(c, a, out) or {}).items():
                             vcs.append(('%s/post-raise:%s' % (pfx, name), pc, cl, {'kind': 'post-raise'}))
+            if out is not None and len(res['samples']) < opts.get('crosscheck_samples', 6) and getattr(K, 'crosscheck', True):
+                smp = sample_path(unit, loader, ctx, c, out, opts, len(res['samples']))
+                if smp is not None:
+                    res['samples'].append(smp)
             for oid, pc, goal, meta in vcs:
                 st, be, dt, model, reason = solve(pc, goal, timeout_ms)
                 res['solver_s'] += dt
@@ -295,3 +302,60 @@ def match_known(K, oid, c, model):
             if rv:
                 out.append({'id': kid, 'what': text, 'region_term': r})
     return out
+
+
+def observe(K, c, a, out, call):
+    if hasattr(K, 'observe'):
+        return jsonable(K.observe(c, a, out))
+    obs = {'kind': out.kind, 'exc': out.exc, 'result': jsonable(out.result)}
+    if call is not None and call.self_obj is not None:
+        obs['self'] = jsonable(call.self_obj)
+    return obs
+
+
+def sample_path(unit, loader, ctx, c, out, opts, k):
+    """A concrete input on this path + what pyvc's interpreter computes for it concretely.
+    The runner compares that with what CPython computes for the same input (encoder cross-check)."""
+    from .contract import FixedCtx
+    s = z3.Solver()
+    s.set('timeout', 3000)
+    s.set('random_seed', k + 1)
+    s.add(*ctx.pc)
+    # nudge away from the all-zero model
+    rnd = random.Random(hash(unit.name) & 0xffff ^ k)
+    for name, (kind, term) in list(c.inputs.items())[:12]:
+        if kind == 'int':
+            s.push()
+            s.add(term == rnd.choice([0, 1, 2, 7, 63, 255, 256, 2047, 2048, 65535, 1 << 20, rnd.randrange(1 << 31)]))
+            if s.check() != z3.sat:
+                s.pop()
+    if s.check() != z3.sat:
+        return None
+    m = s.model()
+    vals = {}
+    for name, (kind, term) in c.inputs.items():
+        try:
+            vals[name] = model_value(m, kind, term)
+        except Exception:
+            return None
+    K = unit.make()
+    ctx2 = PathCtx([], timeout_ms=1000)
+    c2 = FixedCtx(ctx2, loader, vals)
+    it = Interp(loader, ctx2, loop_specs=None, call_hooks=build_hooks(K, loader), max_unroll=opts.get('max_unroll', 4096))
+    c2.it = it
+    try:
+        call = K.setup(c2)
+        fv = call.fn if call.fn is not None else loader.find_function(K.target)
+        args = ([call.self_obj] if call.self_obj is not None else []) + list(call.args)
+        try:
+            res = it.call(fv, args, dict(call.kwargs))
+            if isinstance(res, list) and False:
+                pass
+            o2 = Outcome('return', result=res)
+        except PyExc as e:
+            o2 = Outcome('raise', exc=e.obj.cls.name)
+        if ctx2.pc:
+            return None  # something stayed symbolic (ghost inputs): not a concrete run
+        return {'values': vals, 'pyvc': observe(K, c2, c2.a, o2, call)}
+    except (PathEnd, Unsupported, Incomplete, PyExc):
+        return None
